@@ -134,6 +134,21 @@ extern std::vector<std::string>* g_rng_capture;   // when non-null, every draw i
 
 // ---------------------------------------------------------------- real libc (bypassing --wrap)
 extern "C" {
+struct stat; struct dirent;
+int __real_ftruncate(int, off_t);
+int __real_fstat(int, struct stat*);
+int __real_lstat(const char*, struct stat*);
+int __real_access(const char*, int);
+int __real_fcntl(int, int, ...);
+int __real_mkdir(const char*, mode_t);
+int __real_rmdir(const char*);
+int __real_remove(const char*);
+int __real_unlink(const char*);
+int __real_fileno(FILE*);
+FILE* __real_fdopen(int, const char*);
+void* __real_opendir(const char*);
+struct dirent* __real_readdir(void*);
+int __real_closedir(void*);
 int __real_open(const char*, int, ...);
 FILE* __real_fopen(const char*, const char*);
 void __real_exit(int) __attribute__((noreturn));
